@@ -48,6 +48,10 @@ func checkC05(c *Check) {
 	c.RuleDoc["R05.15"] = "= R19.4: the block-size codes a descriptor may carry are exactly 4..7 (a reserved code is refused even when the check byte matches)"
 	ruleObserversPure(c, p, "R05.12")
 	c.RuleDoc["R05.12"] = "observer methods are pure (= R17.15): Size() cannot consume or judge a header"
+	ruleReaderDst(c, p, "R05.18")
+	c.RuleDoc["R05.18"] = "= R02.6: each block is decoded into the whole block buffer (a stored block copied into a destination left short by the previous block is cut silently)"
+	ruleWindowNumeric(c, p, "R05.19", "")
+	c.RuleDoc["R05.19"] = "= R16.3, numeric part: the history kept for dependent blocks is the end of what was decoded"
 	ruleStreamsThroughInterface(c, p, "R05.16")
 	c.RuleDoc["R05.16"] = "= R07.10: the source is only read through io.Reader (a Seek over a skippable frame does not notice that the announced bytes are missing)"
 	ruleStreamFieldsRearmed(c, p, "R05.17")
